@@ -100,6 +100,71 @@ func verifyAll(b []byte, dev *lab.Device) (failed string, p *probe.Panic, ov *fd
 	return
 }
 
+// stepsOn runs the verification steps on an already decoded voucher.
+func stepsOn(v *fdo.Voucher, dev *lab.Device) string {
+	h256, h384 := dev.Hmacs()
+	switch {
+	case v.VerifyHeader(h256, h384) != nil:
+		return "VerifyHeader"
+	case v.VerifyManufacturerKey(dev.Cred.PublicKeyHash) != nil:
+		return "VerifyManufacturerKey"
+	case v.VerifyCertChainHash() != nil:
+		return "VerifyCertChainHash"
+	case v.VerifyDeviceCertChain(nil) != nil:
+		return "VerifyDeviceCertChain"
+	case v.VerifyEntries() != nil:
+		return "VerifyEntries"
+	}
+	return ""
+}
+
+// reusedVariable: a voucher decoded into a variable that held (and verified) ANOTHER voucher before must get the
+// verdict and name the owner it gets in a fresh variable: what a decode target held before must not leak into the
+// value decoded into it (lazily cached parsed keys are the obvious carrier).
+func reusedVariable(all []*sample) {
+	for _, prim := range all {
+		for _, tgt := range all {
+			if prim == tgt {
+				continue
+			}
+			r.Evaluations.Add(1)
+			id := fmt.Sprintf("%s/enc%d/n%d (mfg %s) decoded over %s/enc%d/n%d (mfg %s)", tgt.kind.Name, tgt.enc, tgt.hops, tgt.mfgRole, prim.kind.Name, prim.enc, prim.hops, prim.mfgRole)
+			var fresh, reused string
+			var freshOwner, reusedOwner crypto.PublicKey
+			p := probe.Call(func() {
+				var a fdo.Voucher
+				if err := cbor.Unmarshal(tgt.enc0, &a); err != nil {
+					fresh = "decode"
+				} else {
+					fresh = stepsOn(&a, tgt.dev)
+					freshOwner, _ = a.OwnerPublicKey()
+				}
+				var v fdo.Voucher
+				if err := cbor.Unmarshal(prim.enc0, &v); err == nil {
+					_ = stepsOn(&v, prim.dev)
+					_, _ = v.OwnerPublicKey()
+				}
+				if err := cbor.Unmarshal(tgt.enc0, &v); err != nil {
+					reused = "decode"
+				} else {
+					reused = stepsOn(&v, tgt.dev)
+					reusedOwner, _ = v.OwnerPublicKey()
+				}
+			})
+			repl := map[string]any{"layer": "reused-variable", "target": tgt.id(), "earlier": prim.id()}
+			switch {
+			case p != nil:
+				r.Violation(p.Key(), id+": panic "+p.Value, repl)
+			case fresh != reused:
+				r.Violation("verdict-depends-on-earlier-contents", fmt.Sprintf("%s: fails %q in a fresh variable and %q in the reused one", id, fresh, reused), repl)
+			case fresh == "" && (freshOwner == nil || reusedOwner == nil || !rv.KeysEqual(freshOwner, reusedOwner)):
+				r.Violation("owner-depends-on-earlier-contents", id+": OwnerPublicKey differs between the fresh and the reused variable", repl)
+			}
+			r.Distinct("reused|" + tgt.id() + "|" + prim.id())
+		}
+	}
+}
+
 // boundKey extracts the bound subtrees from a (codec-normalised) voucher encoding.
 func boundKey(b []byte) ([]byte, bool) {
 	it, n, err := rc.Parse(b)
@@ -400,7 +465,7 @@ func main() {
 		}
 		lens = []int{0, 1, 2, 3}
 	}
-	r.Rule("for each (key type, encoding) and chain length n: a voucher built by the real DI + ExtendVoucher; every single-node alteration under the cbormut operator set (recursing into the header bstr, each entry's protected header / payload / signature, certificate bytes, the HMAC), every byte ^0x01 (thorough: every bit), every pairwise entry swap, duplication and removal, and cross-voucher splices (header, HMAC, certificate chain, header+HMAC, all entries, each entry into each slot / appended) from sibling vouchers of the same and of another manufacturer and of other chain lengths, is decoded and put through VerifyHeader, VerifyManufacturerKey, VerifyCertChainHash, VerifyDeviceCertChain, VerifyEntries. Oracle: no panic; if all steps pass, the bound subtrees (header, HMAC, certificate chain, every entry's protected header, payload, signature) of the codec-normalised mutant equal the original's and the independent chain verifier agrees. Extension: every signer of the ring x 8 next-owner keys: success iff signer = current owner and next key of the manufacturer key's type and size; the result verifies and names the new key. Branching: for every chain length 0..6 (vouchers grown by in-memory extensions) the same voucher object is extended to two different next owners: both results verify and name their own next owner after both extensions were made, and the extended voucher is unchanged.")
+	r.Rule("for each (key type, encoding) and chain length n: a voucher built by the real DI + ExtendVoucher; every single-node alteration under the cbormut operator set (recursing into the header bstr, each entry's protected header / payload / signature, certificate bytes, the HMAC), every byte ^0x01 (thorough: every bit), every pairwise entry swap, duplication and removal, and cross-voucher splices (header, HMAC, certificate chain, header+HMAC, all entries, each entry into each slot / appended) from sibling vouchers of the same and of another manufacturer and of other chain lengths, is decoded and put through VerifyHeader, VerifyManufacturerKey, VerifyCertChainHash, VerifyDeviceCertChain, VerifyEntries. Oracle: no panic; if all steps pass, the bound subtrees (header, HMAC, certificate chain, every entry's protected header, payload, signature) of the codec-normalised mutant equal the original's and the independent chain verifier agrees. Extension: every signer of the ring x 8 next-owner keys: success iff signer = current owner and next key of the manufacturer key's type and size; the result verifies and names the new key. Branching: for every chain length 0..6 (vouchers grown by in-memory extensions) the same voucher object is extended to two different next owners: both results verify and name their own next owner after both extensions were made, and the extended voucher is unchanged. Reused variable: every sample voucher decoded into a variable that held and verified every other sample voucher before gets the same verdict and owner as in a fresh variable.")
 	var all []*sample
 	var mu sync.Mutex
 	var wg sync.WaitGroup
@@ -441,6 +506,7 @@ func main() {
 	for _, c := range cfgs {
 		branching(keys.KindByName(c.kind), c.enc)
 	}
+	reusedVariable(all)
 	r.Sample(3, map[string]any{"voucher": "ec256/enc1/n2", "class": "leaf:str-flip-mid", "path": "/4/1/0/2/bstr/0/1 (entry 1 previous hash value)"})
 	r.Sample(3, map[string]any{"voucher": "rsapss2048/enc2/n2", "class": "splice:entry", "what": "entry 0 of a sibling voucher into slot 1"})
 	r.Assume("bound subtrees are compared at value level on the codec-normalised (decode/re-encode) form; only the outer version and the unauthenticated COSE header maps are unbound; ECDSA signature malleability (r,-s) is outside the single-alteration operator set")
